@@ -31,6 +31,30 @@ if TYPE_CHECKING:
 _T = TypeVar("_T", bound=date)
 
 
+def _is_after(start: date, end: date) -> bool:
+    """
+    Whether start is later than end.
+
+    Python compares two datetimes that share the same tzinfo object by their
+    wall clock, ignoring fold and UTC offset, so the two occurrences of a
+    repeated hour would be ordered by their fields instead of by their instants.
+    """
+    if (
+        isinstance(start, datetime)
+        and isinstance(end, datetime)
+        and start.tzinfo is not None
+        and start.tzinfo is end.tzinfo
+    ):
+        start_offset = cast(timedelta, start.utcoffset())
+        end_offset = cast(timedelta, end.utcoffset())
+
+        return datetime.__sub__(start.replace(tzinfo=None), start_offset) > (
+            datetime.__sub__(end.replace(tzinfo=None), end_offset)
+        )
+
+    return start > end
+
+
 class Interval(Duration, Generic[_T]):
     """
     An interval of time between two datetimes.
@@ -59,7 +83,7 @@ class Interval(Duration, Generic[_T]):
         ):
             raise TypeError("can't compare offset-naive and offset-aware datetimes")
 
-        if absolute and start > end:
+        if absolute and _is_after(start, end):
             end, start = start, end
 
         _start = start
@@ -177,7 +201,7 @@ class Interval(Duration, Generic[_T]):
                 _end = cast(_T, date(end.year, end.month, end.day))
 
         self._invert = False
-        if start > end:
+        if _is_after(start, end):
             self._invert = True
 
             if absolute:
